@@ -455,7 +455,11 @@ Definition check_kmvs (input output : J) : verdict :=
           let k := Z.to_nat k in
           let elems := List.concat echunks in
           let ranks := List.concat rchunks in
-          let model := kmv_float (kmv_finish (kmv_build kltb keqb k ranks)) in
+          (* sketch sizes above 64: the O(n log n) form of the specification, which every
+             accumulator expression finishes to (c15_kmv_fast_spec) *)
+          let model :=
+            if (k <=? 64)%nat then kmv_float (kmv_finish (kmv_build kltb keqb k ranks))
+            else kmv_float (kmv_fast kltb keqb (Nat.max k 4) ranks) in
           ok_verdict (fsame model est && fsames (map rank_of_u64 elems) ranks)
                      (kmv_prop k elems ranks est)
       | _, _ => malformed
@@ -529,13 +533,16 @@ Definition dec_kcounts (j : J) : option (list (Z * Z)) :=
      adc   from_vec(elems).approx_distinct_count(k)
      cg    from_vec(elems).combine_globally(KMVApproxDistinctCount::new(k), fanout)
      cgl   from_vec(elems).combine_globally_lifted(.., fanout)
-     adck  from_vec(pairs).approx_distinct_count_per_key(k)
+     adck  from_vec(pairs).approx_distinct_count_per_key(k); adck2 = the SAME PCollection collected
+           a second time, the other way (sequentially / with 3 partitions)
      cv    from_vec(pairs).combine_values(KMVApproxDistinctCount::new(k))
      gbkl  from_vec(pairs).group_by_key().combine_values_lifted(..)
      cvl   from_vec(records).combine_values_lifted(..)   one (key, Vec<elem>) record per segment,
            so a key occurs in several records of one partition
      twin  per key: from_vec(the key's elems).approx_distinct_count(k)   (global twin of adck)
      dst   from_vec(elems).distinct() -- number of rows;  dstk: distinct_per_key() rows per key
+     dir   the CombineFn / LiftableCombiner API by hand: one accumulator per segment (even:
+           build_from_group, odd: create + add_input), merged in shape fan mod 3
    The model's ranks come from Combiners/KMVRank.v (SipHash-1-3), not from the harness.
    Model: kmv_fast (proved equal to every accumulator expression's finish: c15_kmv_fast_spec +
    c15_kmv_finish_spec + the SketchPipe theorems); for small cases also the runner-shaped model
@@ -554,54 +561,75 @@ Definition same_kests (a b : list (Z * float)) : bool :=
 Definition check_kh (input output : J) : verdict :=
   match input, output with
   | JL [JI k; JL jsegs; JI parts; JI fan],
-    JL [JS okt; JL [JF adc; JF cg; JF cgl; jadck; jcv; jgbkl; jcvl; jtwin; JI dst; jdstk]] =>
+    JL [JS okt; JL [JF adc; JF cg; JF cgl; jadck; jcv; jgbkl; jcvl; jtwin; JI dst; jdstk; JF dir; jadck2]] =>
       match omap dec_seg jsegs, dec_kests jadck, dec_kests jcv, dec_kests jgbkl, dec_kests jcvl,
-            dec_kests jtwin, dec_kcounts jdstk with
-      | Some segs, Some adck, Some cv, Some gbkl, Some cvl, Some twin, Some dstk =>
+            dec_kests jtwin, dec_kcounts jdstk, dec_kests jadck2 with
+      | Some segs, Some adck, Some cv, Some gbkl, Some cvl, Some twin, Some dstk, Some adck2 =>
           if negb (String.eqb okt "ok") then ok_verdict false false else
-          let k := Z.to_nat k in
+          let groups := map seg_group segs in                       (* (key, elems) per segment *)
+          (* a sketch size beyond the number of rows behaves like any other such size (fewer than
+             k distinct ranks: the exact count, c15_kmv_exact_below_k); sizes like 2^61 are
+             replaced by rows + 5 so that the unary sketch size of the model stays small *)
+          let nrows := Z.of_nat (fold_left (fun n g => (n + List.length (snd g))%nat) groups 0%nat) in
+          let k := Z.to_nat (Z.min k (nrows + 5)) in
           let k' := Nat.max k 4 in
           let parts := Z.to_nat parts in
           let fan := Z.to_nat fan in
-          let groups := map seg_group segs in                       (* (key, elems) per segment *)
           let rgroups := map (fun g => (fst g, map rank_of_u64 (snd g))) groups in
           let rows := List.concat (map group_rows groups) in        (* (key, elem) *)
           let rrows := List.concat (map group_rows rgroups) in      (* (key, rank) *)
-          let keys := zkeys (map fst groups) in
+          (* a key whose segments are all empty has records (cvl, twin, dstk report it) but no
+             (key, elem) pair (adck, cv, gbkl do not) *)
+          let gkeys := zkeys (map fst groups) in
+          let keys := zkeys (map fst rows) in
+          let present (res : list (Z * float)) :=
+            filter (fun r => existsb (Z.eqb (fst r)) keys) res in
           let fast (rs : list float) := kmv_float (kmv_fast kltb keqb k' rs) in
           let gmodel := fast (map snd rrows) in
           let kmodel := map (fun key => (key, fast (zmine key rrows))) keys in
+          let gkmodel := map (fun key => (key, fast (zmine key rrows))) gkeys in
           let small := (k' <=? 64)%nat && (List.length rows <=? 600)%nat in
           let comb := kmv_combiner kltb keqb k in
           let pipe_agree :=
             if small then
-              fsame (kmv_float (combine_globally comb false 0 parts (map snd rrows))) adc
+              fsame (kmv_float (approx_distinct_count kltb keqb k parts (map snd rrows))) adc
               && fsame (kmv_float (combine_globally comb false fan parts (map snd rrows))) cg
               && fsame (kmv_float (combine_globally comb true fan parts (map snd rrows))) cgl
               && all2 (fun key r =>
                          match combine_values comb Z.eqb key parts rrows with
                          | Some o => fsame (kmv_float o) (snd r) | None => false end) keys cv
               && all2 (fun key r =>
+                         match approx_distinct_count_per_key kltb keqb Z.eqb k key
+                                 (if (parts =? 0)%nat then 3%nat else 0%nat) rrows with
+                         | Some o => fsame (kmv_float o) (snd r) | None => false end) keys adck2
+              && all2 (fun key r =>
                          match combine_values_lifted comb Z.eqb key parts rgroups with
-                         | Some o => fsame (kmv_float o) (snd r) | None => false end) keys cvl
+                         | Some o => fsame (kmv_float o) (snd r) | None => false end) gkeys cvl
+              && fsame (kmv_float (kmv_finish
+                          (kmv_shape (Z.of_nat (fan mod 3))
+                             (map (fun ig => leaf_acc comb (Nat.even (fst ig)) (snd (snd ig)))
+                                  (combine (seq 0 (List.length rgroups)) rgroups)) k))) dir
             else true in
           let agree :=
-            fsame gmodel adc && fsame gmodel cg && fsame gmodel cgl
-            && same_kests kmodel adck && same_kests kmodel cv && same_kests kmodel gbkl
-            && same_kests kmodel cvl && same_kests kmodel twin && pipe_agree in
+            fsame gmodel adc && fsame gmodel cg && fsame gmodel cgl && fsame gmodel dir
+            && same_kests kmodel adck && same_kests kmodel adck2 && same_kests kmodel cv
+            && same_kests kmodel gbkl
+            && same_kests gkmodel cvl && same_kests gkmodel twin && pipe_agree in
           (* property instance on the observed values; reference = the integer ids only *)
           let d_all := zdistinct (map snd rows) in
           let d_keys := map (fun key => (key, zdistinct (zmine key rows))) keys in
-          let per_key_ok (res : list (Z * float)) :=
-            all2 (fun kd r => (fst kd =? fst r) && band_ok k' (snd kd) (snd r)) d_keys res in
+          let d_gkeys := map (fun key => (key, zdistinct (zmine key rows))) gkeys in
+          let per_key_ok (ds : list (Z * nat)) (res : list (Z * float)) :=
+            all2 (fun kd r => (fst kd =? fst r) && band_ok k' (snd kd) (snd r)) ds res in
           let prop :=
-            band_ok k' d_all adc && fsame adc cg && fsame adc cgl
-            && per_key_ok adck && same_kests adck cv && same_kests adck gbkl
-            && same_kests adck cvl && same_kests adck twin
+            band_ok k' d_all adc && fsame adc cg && fsame adc cgl && fsame adc dir
+            && per_key_ok d_keys adck && same_kests adck adck2 && same_kests adck cv
+            && same_kests adck gbkl
+            && per_key_ok d_gkeys cvl && same_kests cvl twin && same_kests adck (present cvl)
             && (dst =? Z.of_nat d_all)
-            && all2 (fun kd r => (fst kd =? fst r) && (Z.of_nat (snd kd) =? snd r)) d_keys dstk in
+            && all2 (fun kd r => (fst kd =? fst r) && (Z.of_nat (snd kd) =? snd r)) d_gkeys dstk in
           ok_verdict agree prop
-      | _, _, _, _, _, _, _ => malformed
+      | _, _, _, _, _, _, _, _ => malformed
       end
   | _, _ => malformed
   end.
@@ -612,7 +640,8 @@ Definition check_kh (input output : J) : verdict :=
      comb  "aq" ApproxQuantiles::new(qs, c)      "five" ::five_number_summary(c)
            "pct" ::percentiles(c)                "median" ::median(c)
            "med" ApproxMedian::new(c)            "meddef" ApproxMedian::default()
-     out = [cg, cgl, cv, gbkl, cvl]  (entry points as in "kh"; a median is a one-element list) *)
+     out = [cg, cgl, cv, gbkl, cvl, cv2]  (entry points as in "kh"; cv2 = the combine_values
+     PCollection collected a second time; a median is a one-element list) *)
 Definition fofZs (z : Z) : float := if z <? 0 then PrimFloat.opp (fofZ (- z)) else fofZ z.
 
 Definition q_comb (comb : string) (c : float) (qs : list float)
@@ -637,10 +666,10 @@ Definition dec_kress (j : J) : option (list (Z * list float)) :=
 Definition check_qh (input output : J) : verdict :=
   match input, output with
   | JL [JS comb; JF c; JL jsegs; jqs; JI parts; JI fan; JI den; JS _],
-    JL [JS okt; JL [jcg; jcgl; jcv; jgbkl; jcvl]] =>
+    JL [JS okt; JL [jcg; jcgl; jcv; jgbkl; jcvl; jcv2]] =>
       match omap dec_seg jsegs, jfs jqs, jfs jcg, jfs jcgl, dec_kress jcv, dec_kress jgbkl,
-            dec_kress jcvl with
-      | Some segs, Some qs0, Some cg, Some cgl, Some cv, Some gbkl, Some cvl =>
+            dec_kress jcvl, dec_kress jcv2 with
+      | Some segs, Some qs0, Some cg, Some cgl, Some cv, Some gbkl, Some cvl, Some cv2 =>
           if negb (String.eqb okt "ok") then ok_verdict false false else
           match q_comb comb c qs0 with
           | None => malformed
@@ -653,7 +682,8 @@ Definition check_qh (input output : J) : verdict :=
                                 segs in
               let rows := List.concat (map group_rows groups) in
               let vals := map snd rows in
-              let keys := zkeys (map fst groups) in
+              let gkeys := zkeys (map fst groups) in
+              let keys := zkeys (map fst rows) in
               let agree :=
                 fsames (combine_globally cb false fan parts vals) cg
                 && fsames (combine_globally cb true fan parts vals) cgl
@@ -663,19 +693,21 @@ Definition check_qh (input output : J) : verdict :=
                               | Some o => fsames o (snd r)
                               | None => false end) keys cv
                 && all2 (fun x y => (fst x =? fst y) && fsames (snd x) (snd y)) cv gbkl
+                && all2 (fun x y => (fst x =? fst y) && fsames (snd x) (snd y)) cv cv2
                 && all2 (fun key r =>
                            (key =? fst r)
                            && match combine_values_lifted cb Z.eqb key parts groups with
-                              | Some o => fsames o (snd r) | None => false end) keys cvl in
-              let per_key_prop (res : list (Z * list float)) :=
+                              | Some o => fsames o (snd r) | None => false end) gkeys cvl in
+              let per_key_prop (ks : list Z) (res : list (Z * list float)) :=
                 all2 (fun key r => (key =? fst r) && range_prop (zmine key rows) qs (snd r))
-                     keys res in
+                     ks res in
               let prop :=
                 range_prop vals qs cg && range_prop vals qs cgl
-                && per_key_prop cv && per_key_prop gbkl && per_key_prop cvl in
+                && per_key_prop keys cv && per_key_prop keys gbkl && per_key_prop gkeys cvl
+                && per_key_prop keys cv2 in
               ok_verdict agree prop
           end
-      | _, _, _, _, _, _, _ => malformed
+      | _, _, _, _, _, _, _, _ => malformed
       end
   | _, _ => malformed
   end.
